@@ -10,7 +10,7 @@ TECH = {
  "C01": "contract-based VCs (pyvc/z3) for the solver dispatch of sum_products, rename_duplicate_nodes and the scheduling partition computed by scc (nested function verified against its own contract) + bounded contract check of the real sum_product against an independent evaluation of the definition (stand-in; not proved)",
  "C02": "contract-based VCs from the real AST (pyvc/z3) for fixed_point/newton control flow + scalar semiring proofs (semvc/z3 NRA) + bounded stand-in for values",
  "C03": "contract-based VCs (pyvc/z3) for rename_duplicate_nodes and the einsum bookkeeping of sum_product_edges + bounded contract check of gradients against exact derivatives / central differences (stand-in; not proved)",
- "C04": "scalar proof that ViterbiSemiring.star is the least solution (semvc/z3) + bounded contract check of viterbi against brute force (stand-in; not proved)",
+ "C04": "scalar proof that ViterbiSemiring.star is the least solution (semvc/z3) + contract-based VCs (pyvc/z3) for the index bookkeeping of viterbi.sum_product_edges + bounded contract check of viterbi against brute force (stand-in; not proved)",
  "C05": "contract-based VCs (pyvc/z3) for method forwarding and fresh names + bounded stand-in (inlining isomorphism, sum-product equality)",
  "C06": "scalar-semantics proof obligations on the real PatternedTensor method ASTs (semvc/z3 NRA) + bounded stand-in for denotation + run-time representation invariant (hook)",
  "C07": "scalar-semantics proof obligations for the einsum callbacks (semvc/z3) + bounded stand-in against nested-loop einsum",
@@ -62,7 +62,7 @@ def main(claimed):
                   "baseline_off_cmd": "cd /repo && /venv/bin/python -m pytest -ra -q -p no:cacheprovider --timeout=900 --continue-on-collection-errors",
                   "source_commits": hook_commits, "add_only": True},
         "engines": [
-            {"name": "pyvc", "path": "vf/pyvc", "serves_properties": ["C01", "C02", "C03", "C05", "C09", "C10", "C14", "C15", "C16", "C17", "C18", "C19", "C20"],
+            {"name": "pyvc", "path": "vf/pyvc", "serves_properties": ["C01", "C02", "C03", "C04", "C05", "C09", "C10", "C12", "C14", "C15", "C16", "C17", "C18", "C19", "C20"],
              "kind_free_text": "VC generator: symbolic execution of the real ASTs of /repo/fggs against sidecar contracts (contracts/*.py), loops by invariant, discharge with z3 (rlimit) then cvc5"},
             {"name": "semvc", "path": "vf/semvc", "serves_properties": ["C02", "C06", "C07", "C08", "C11", "C12"],
              "kind_free_text": "scalar semantics of elementwise tensor code over extended reals (IEEE special values) in z3 nonlinear arithmetic"},
